@@ -374,3 +374,15 @@ w("C17", "positional list rebuilt from the arguments mapping again", "pandera/de
   "                    args = list(bound_args.args)", "                    args = list(pos_args.values())")
 w("C17", "positional list rebuilt from the owner's arguments mapping", "pandera/decorators.py",
   "                    args = list(bound_args.args)", "                    args = [*bound_args.arguments.values()]")
+w("C14", "infer_dtype label resolved unfenced again", "pandera/schema_statistics/pandas.py",
+  "            try:\n                data_type = pandas_engine.Engine.dtype(inferred_alias)\n            except TypeError:\n                # labels that do not name a data type (\"empty\", \"period\",\n                # \"unknown-array\"): the array keeps the object dtype\n                pass\n",
+  "            data_type = pandas_engine.Engine.dtype(inferred_alias)\n")
+w("C14", "the fence around the label resolution re-raises", "pandera/schema_statistics/pandas.py",
+  "                # \"unknown-array\"): the array keeps the object dtype\n                pass\n", "                raise\n")
+w("C17", "tuple result rebuilt with the base constructor again", "pandera/decorators.py",
+  "                out = (\n                    out._make(items)  # type: ignore[attr-defined]\n                    if hasattr(out, \"_make\")\n                    else type(out)(items)\n                )\n", "                out = tuple(items)\n")
+w("C04", "frame re-bound to the array-level result without a kind test again", "pandera/backends/pandas/components.py",
+  "                    if is_table(validated_obj):\n                        check_obj = validated_obj\n                    elif validated_obj is not None:",
+  "                    if validated_obj is not None and not schema.regex:\n                        check_obj = validated_obj\n                    elif validated_obj is not None:")
+w("C04", "frame re-bound to a copy of the array-level result", "pandera/backends/pandas/components.py",
+  "                        check_obj = check_obj[~check_obj.index.isin(dropped)]\n", "                        check_obj = validated_obj.copy()\n")
